@@ -2,4 +2,5 @@ SPECIFICATION Spec
 CONSTANTS
   MaxKeys = 2
   KeyCols = {"name", "ext", "size", "hardlinks", "modified", "length(name)", "size + 1", "length(name) * 4", "is_dir", "day(modified)"}
+  WorldSel = {0}
 INVARIANTS EmitWorld Emit
